@@ -11,6 +11,7 @@ INVARIANT ErrorsExact
 INVARIANT OthersUntouched
 INVARIANT KeepSetExact
 INVARIANT KeepOrder
+INVARIANT ReachAgree
 INVARIANT MapWellFormed
 INVARIANT MapNames
 INVARIANT FullyExpanded
